@@ -85,6 +85,24 @@ impl Page {
         unsafe { &*(&self.ptr as *const u64 as *const OldMeta) }
     }
 
+    // Returns None instead of panicking if this page is not marked as a meta page
+    // (e.g. because it has been damaged).
+    pub(crate) fn try_meta(&self) -> Option<&Meta> {
+        if self.page_type == Page::TYPE_META {
+            Some(self.meta())
+        } else {
+            None
+        }
+    }
+
+    pub(crate) fn try_old_meta(&self) -> Option<&OldMeta> {
+        if self.page_type == Page::TYPE_META {
+            Some(self.old_meta())
+        } else {
+            None
+        }
+    }
+
     pub(crate) fn meta_mut(&mut self) -> &mut Meta {
         assert_eq!(
             self.page_type,
